@@ -616,6 +616,18 @@ class Impl:
             return self._h(m, self.amgr[srcm].copy(f, a))
         if name == 'assert_consistent':
             return a.assert_consistent()
+        if name == 'copy_bdds_from':
+            import dd._copy as _c
+            src, hs = args
+            srcm = 'a%d' % src
+            roots = [self.handles[srcm][h] for h in hs]
+            try:
+                got = _c.copy_bdds_from(roots, a)
+            finally:
+                del roots
+            out = [self._h(m, f) for f in got]
+            del got
+            return out
         if name == 'json_dump':
             roots = args[0]
             if isinstance(roots, dict):
